@@ -87,8 +87,8 @@ func genCase(r *rng.R) fw.Case {
 		}
 		var ops []*sx.Node
 		var newHere []int
-		// DestroyEnvironment's STOP / RESET / teardown are separate critical sections: a control request on the
-		// same environment can slip in between; such pairs are not generated (two destroys of one environment are)
+		// DestroyEnvironment's STOP / RESET / teardown are separate critical sections: another request on the
+		// same environment can slip in between; the model destroys in one step, so a round names an environment once
 		touched := map[int]string{}
 		for j := 0; j < n; j++ {
 			switch {
@@ -102,7 +102,7 @@ func genCase(r *rng.R) fw.Case {
 				k := rng.Pick(r, created)
 				kind := r.N(10)
 				isDestroy := (kind >= 3 && kind <= 5)
-				if prev, ok := touched[k]; ok && !(prev == "destroy" && isDestroy) {
+				if _, ok := touched[k]; ok {
 					ops = append(ops, ownh.Cleanup())
 					continue
 				}
